@@ -111,6 +111,7 @@ type Unsupported struct{ Msg string }
 func (u Unsupported) Error() string { return "unsupported: " + u.Msg }
 
 type specCtx struct {
+	lazy int // step budget of a lazily attempted merge (0 = none)
 	landed     bool    // an inner merge ended exactly at this arm's join block
 	landedPhis []Value // ... with these values for the join block's phis
 	frame *Frame
@@ -167,6 +168,7 @@ type State struct {
 	sizeMemo  map[types.Type]int
 	guard     *term.Node // guard of the alternative being processed by mapMux
 	subst     map[*term.Node]*term.Node
+	lazyLimit int
 	bounds    map[*term.Node][2]uint64
 }
 
@@ -327,14 +329,26 @@ func (st *State) noteBinding(c *term.Node) {
 		a, b := c.Args[0], c.Args[1]
 		var v *term.Node
 		lo, hi := uint64(0), ^uint64(0)
-		if a.IsConst() && b.Op == term.OpVar && b.K2 == 0 {
-			v = b
+		base := func(n *term.Node) *term.Node {
+			if n.Op != term.OpVar {
+				return nil
+			}
+			if n.K2 == 2 { // a range view: the fact is about the variable it views
+				return st.b.LookupVar(n.Name)
+			}
+			if n.K2 == 0 {
+				return n
+			}
+			return nil
+		}
+		if a.IsConst() && base(b) != nil {
+			v = base(b)
 			lo = a.K
 			if c.Op == term.OpUlt {
 				lo++
 			}
-		} else if b.IsConst() && a.Op == term.OpVar && a.K2 == 0 {
-			v = a
+		} else if b.IsConst() && base(a) != nil {
+			v = base(a)
 			hi = b.K
 			if c.Op == term.OpUlt {
 				hi--
@@ -521,16 +535,18 @@ func (st *State) concretize(n *term.Node, what string) uint64 {
 			st.pushPC(st.b.Eq(n, st.b.Const(n.W, v)))
 			return v
 		}
-		if st.ev != nil {
-			v = st.ev.Eval(n)
-		} else {
-			ok, m := st.feasible(st.b.True)
-			if !ok || m == nil {
+		if st.ev == nil {
+			// no model of the path condition at hand (e.g. inside a lazily merged arm): ask for one
+			r, m := st.solver.check(st, st.pc, st.b.True)
+			if r == smt.Unsat {
+				panic(pathEnd{"infeasible"})
+			}
+			if m == nil {
 				panic(Unsupported{"no model available to concretise " + what})
 			}
 			st.setModel(m)
-			v = st.ev.Eval(n)
 		}
+		v = st.ev.Eval(n)
 		eq := st.b.Eq(n, st.b.Const(n.W, v))
 		// is there another value?
 		okOther, mOther := st.feasible(st.b.BNot(eq))
